@@ -27,8 +27,11 @@ class Unsupported(Exception):
 
 
 class Ref:
-    def __init__(self, prog, keyword_chars=KEYWORD_CHARS, ws=WS):
+    def __init__(self, prog, keyword_chars=KEYWORD_CHARS, ws=WS, each_twice=False):
         self.defs, self.fwd = {}, {}
+        # each_twice: reproduce Each's handling of a nullable operand that is not an Opt (listed as required AND as
+        # optional, so it can be consumed twice) - only used to recognise the registered finding
+        self.each_twice = each_twice
         self.ws, self.kw = ws, keyword_chars
         for st in prog:
             var, op, *a = st
@@ -116,6 +119,8 @@ class Ref:
             r = self.skips(a[0], seen) and self.skips(a[1], seen)
         elif op in ("MatchFirst", "Or"):
             r = all(self.skips(x, seen) for x in a[0])
+        elif op in ("Each", "&"):
+            r = True
         elif op in ("Opt", "ZeroOrMore", "OneOrMore", "Group", "Suppress", "FollowedBy", "Located", "copy", "SkipTo"):
             r = self.skips(a[0], seen)
         elif op == "Forward":
@@ -131,7 +136,7 @@ class Ref:
         tokens, copied from the contained expression by every other wrapper (ParseElementEnhance.__init__) — a
         SkipTo / Group / Opt ... over alternatives does not skip whitespace itself, which shows in SkipTo's skipped text"""
         op, a = self.defs[v]
-        if op in ("|", "^", "MatchFirst", "Or"):
+        if op in ("|", "^", "MatchFirst", "Or", "Each", "&"):
             return False
         if op in ("Opt", "ZeroOrMore", "OneOrMore", "Group", "Suppress", "FollowedBy", "copy", "SkipTo", "~", "NotAny"):
             return v in seen or self.cp(a[0], seen + (v,))
@@ -178,6 +183,101 @@ class Ref:
             i, n = j, n + 1
             toks += t
         return (i, toks) if n >= lo else FAIL
+
+    def each_operands(self, v):
+        """operand list of an Each; `a & b & c` builds Each([Each([a, b]), c]) which streamline() flattens"""
+        op, a = self.defs[v]
+        if op == "Each":
+            return list(a[0])
+        l, r = a[0], a[1]
+        return (self.each_operands(l) if self.defs[l][0] == "&" else [l]) + [r]
+
+    def nullable(self, v, seen=()):
+        """can match the empty string (structural; conservative = True when unsure)"""
+        if v in seen:
+            return False
+        op, a = self.defs[v]
+        seen = seen + (v,)
+        if op in ("Opt", "ZeroOrMore", "Empty", "~", "NotAny", "FollowedBy", "StringStart", "StringEnd", "LineEnd", "SkipTo"):
+            return True
+        if op == "Literal":
+            return a[0] == ""
+        if op in ("+", "-"):
+            return self.nullable(a[0], seen) and self.nullable(a[1], seen)
+        if op == "And":
+            return all(self.nullable(x, seen) for x in a[0])
+        if op in ("|", "^"):
+            return self.nullable(a[0], seen) or self.nullable(a[1], seen)
+        if op in ("MatchFirst", "Or"):
+            return any(self.nullable(x, seen) for x in a[0])
+        if op in ("Each", "&"):
+            return all(self.nullable(x, seen) for x in self.each_operands(v))
+        if op in ("OneOrMore", "Group", "Suppress", "copy", "Located", "Combine", "*"):
+            return self.nullable(a[0], seen)
+        if op == "Forward":
+            b = self.fwd.get(v)
+            return b is not None and self.nullable(b, seen)
+        return False
+
+    def each(self, operands, s, i, tight):
+        """'&': the operands in any order, tried greedily in rounds (required ones first, then optional ones, then
+        repeatable ones, each in declaration order); every operand that is not a repetition is used at most once and
+        every required one exactly once; Opt operands that never matched contribute their default at the end"""
+        req, mreq, opt, multi, again = [], [], [], [], []   # slots: (kind, operand variable, variable tried)
+        for x in operands:
+            op, a = self.defs[x]
+            if op == "Opt":
+                opt.append(("opt", x, a[0]))
+            elif op in ("ZeroOrMore", "OneOrMore"):
+                if len(a) > 1:
+                    raise Unsupported("Each with stop_on repetition")
+                if self.nullable(a[0]):
+                    raise Unsupported("Each with nullable repetition body")
+                if op == "OneOrMore":
+                    mreq.append(("req", x, a[0]))
+                multi.append(("multi", x, a[0]))
+            else:
+                req.append(("req", x, x))
+                if self.nullable(x):
+                    again.append(("again", x, x))
+        req += mreq           # Each.required = the plain operands, then the bodies of the OneOrMore operands
+        opt += again          # Each.optionals = the Opt operands, then the other operands that may match nothing
+        order, loc = [], i
+        while True:
+            progressed = False
+            for slot in req[:] + opt[:] + multi:
+                if slot[0] == "again" and slot not in opt:
+                    continue          # used up by a non-empty match earlier in this round
+                r = self.ev(slot[2], s, loc, tight)
+                if r is FAIL:
+                    continue
+                progressed = True
+                loc_before, loc = loc, r[0]
+                order.append(slot)
+                if slot[0] == "req":
+                    req.remove(slot)
+                    # an empty match of a required operand that can match nothing is not its one occurrence yet;
+                    # a non-empty one is
+                    if r[0] > loc_before and not self.each_twice and ("again", slot[1], slot[2]) in opt:
+                        opt.remove(("again", slot[1], slot[2]))
+                elif slot[0] in ("opt", "again"):
+                    opt.remove(slot)
+                elif ("req", slot[1], slot[2]) in req:
+                    req.remove(("req", slot[1], slot[2]))   # an occurrence of a OneOrMore operand satisfies it
+            if not progressed:
+                break
+            if len(order) > 4 * (len(s) + 2) + 20:
+                raise Unsupported("Each does not settle")
+        if req:
+            return FAIL
+        toks, loc = [], i
+        for kind, x, inner in order + [o for o in opt if o[0] == "opt"]:
+            r = self.ev(x if kind == "opt" else inner, s, loc, tight)
+            if r is FAIL:
+                raise Unsupported("Each second pass differs")
+            loc = r[0]
+            toks += r[1]
+        return loc, toks
 
     def body(self, v, op, a, s, i, tight, edge=False):
         """edge: this element is at the left edge of an expression that is being tried *without* leading skip (SkipTo
@@ -263,6 +363,8 @@ class Ref:
                 if r is not FAIL and (best is FAIL or r[0] > best[0]):
                     best = r
             return best
+        if op in ("Each", "&"):
+            return self.each(self.each_operands(v), s, i, tight)
         if op == "Opt":
             r = self.ev(a[0], s, i, tight, top_noskip=edge)
             if r is not FAIL:
